@@ -52,6 +52,8 @@ func c04PriorSlots(c *Ctx) {
 				key := fi.Name + "/writes " + p
 				if why, fine := ok2[fi.Name]; fine {
 					c.ok("C04.e", key, as.Pos(), "written by the %s", why)
+				} else if c04NeverReferenced(c, fi) {
+					c.okTrivial("C04.e", key, as.Pos(), "in an unexported function that is never referenced (dead, or a helper whose calls were all inlined into their callers)")
 				} else if root, why := c04OnlyHelperOf(c, fi, ok2); root != "" {
 					c.ok("C04.e", key, as.Pos(), "written by the %s (in an unexported helper called only from %s)", why, root)
 				} else {
